@@ -68,7 +68,7 @@ def gen_case(rng, tier, k):
 
 def run_case(case):
     r = run_plain_history(case)
-    d = r["sample"]["final_dump"]
+    d = r["final_dump"]
     nodes = d.split(" | ")[0].split()
     r["tags"].append("strategy:" + case.get("strategy", "?"))
     r["nontrivial"] = len(nodes) >= 3
